@@ -35,7 +35,10 @@ META = {
                   "specifications) and cumsum cumprod cumcount shift ffill bfill transform('sum'), for dropna in {T,F}, sort in "
                   "{default,True,False}, observed in {T,F}; dask is replayed on all row partitionings with <= 3 parts (empty "
                   "partitions included; quick: a seeded sample) x split_out {default,1,2,3} x split_every {default,2,3} x "
-                  "shuffle_method {default,tasks,disk}. Results are compared as a map keyed by group unless sort=True. Random larger "
+                  "shuffle_method {default,tasks,disk}; for the order-free operations also on PRE-PARTITIONED sources: the frame hash-shuffled "
+                  "on columns K' that are a subset of / equal to / a superset of / overlapping / disjoint from the grouping keys, or being the "
+                  "result of a first split_out aggregation by finer keys. Results are compared as a map keyed by group unless sort=True "
+                  "(a group split over output partitions shows as a duplicated key: clause Groups). Random larger "
                   "frames are decided by TLC from recorded calls.",
     "level_note": "Trusted: TLC, the TLA+ reference (cross-checked against pandas on every case; a disagreement is a machinery error), "
                   "harness.frames.from_parts, the projection of results (keys, columns, values), Fraction conversion of floats with "
@@ -47,6 +50,7 @@ SO_VARIANTS = ["default", 1, 2, 3]
 SE_VARIANTS = ["default", 2, 3]
 SM_VARIANTS = ["default", "tasks", "disk"]
 ORDERED_XF = ("cumsum", "cumprod", "cumcount")
+ORDER_FREE = ("sum", "prod", "count", "min", "max", "mean", "var", "std", "size", "nunique")
 SHUFFLING_XF = ("shift", "ffill", "bfill", "tsum")
 
 
@@ -56,7 +60,7 @@ def pandas_frame(case):
     import pandas as pd
     rows = case["rows"]
     data = {}
-    for c in list(case["keys"]) + list(case["vcols"]):
+    for c in frame_columns(case):
         cells = [r[c] for r in rows]
         kind = case["kinds"].get(c, "f")
         if c in case["keys"] and case["cats"]:
@@ -66,6 +70,29 @@ def pandas_frame(case):
         else:
             data[c] = np.array(cells, dtype="i8")
     return pd.DataFrame(data, index=pd.Index([r["idx"] for r in rows], dtype="i8"))
+
+
+NO_PRE = {"how": "none", "on": []}
+
+
+def pre_of(case):
+    return case.get("pre") or NO_PRE
+
+
+def frame_columns(case):
+    keylike = set(case["keys"]) | {c for c in pre_of(case)["on"] if c in ("k", "j")}
+    return [c for c in ("k", "j") if c in keylike] + list(case["vcols"])
+
+
+def pre_relation(case):
+    """How the columns K' of the pre-stage relate to the grouping keys K."""
+    pre = pre_of(case)
+    if pre["how"] == "none":
+        return "none"
+    if pre["how"] == "agg":
+        return "agg-by-finer-keys"
+    k, kp = set(case["keys"]), set(pre["on"])
+    return ("equal" if kp == k else "subset" if kp < k else "superset" if kp > k else "overlap" if kp & k else "disjoint")
 
 
 def dask_kwargs(variant, names=("split_out", "split_every", "shuffle_method")):
@@ -106,10 +133,19 @@ def apply_op(x, case, variant, is_dask):
         gkw["sort"] = False
     if case["cats"]:
         gkw["observed"] = case["observed"]
+    v = variant if is_dask else None
+    pre = pre_of(case)
+    if pre["how"] == "shuffle" and is_dask:
+        x = x.shuffle(on=list(pre["on"]))                    # pandas: nothing to do - the rows are the same
+    elif pre["how"] == "agg":                                 # first stage: the same function by the finer keys
+        dn = {"dropna": case["dropna"]} if case.get("dexp", True) else {}
+        so1 = {"split_out": variant["so1"]} if (is_dask and variant.get("so1", "default") != "default") else {}
+        x = getattr(x.groupby(list(pre["on"]), **dn), case["funcs"][0]["f"])(**so1).reset_index()
     g = x.groupby(by, **gkw)
     if case["tgt"] == "series":
         g = g[case["vcols"][0]]
-    v = variant if is_dask else None
+    elif pre["how"] == "agg":
+        g = g[list(case["vcols"])]
     if case["fam"] == "agg":
         if case["form"] != "method":
             return g.agg(agg_spec(case), **dask_kwargs(v))
@@ -337,6 +373,8 @@ def classify(case, layout, clause, variant):
     multi_out = so not in ("default", 1)
     if case["fam"] == "agg":
         fs = {fn["f"] for fn in case["funcs"]}
+        if (pre_relation(case) in ("equal", "subset") and multi_out and len(layout) == 1 and clause == "UnexpectedRaise"):
+            return "agg:pre-partitioned:shuffle-skipped:single-partition-source:split_out>1:raises"
         if "nunique" in fs:
             if obs_false and clause == "Groups":
                 return "agg:nunique:categorical:observed=False:unobserved-groups-missing"
@@ -362,6 +400,8 @@ def classify(case, layout, clause, variant):
         opts.append("split_out>1" if multi_out else "split_out=1")
         if nakey:
             opts.append("na-key")
+        if pre_relation(case) != "none":
+            opts.append("pre-partitioned:" + pre_relation(case))
         return ":".join(["agg", site, case["tgt"], clause] + opts)
     op = case["op"]
     sm = variant.get("sm", "default")
@@ -379,6 +419,8 @@ def classify(case, layout, clause, variant):
         opts.append("categorical:observed=%s" % case["observed"])
     if nakey:
         opts.append("na-key")
+    if pre_relation(case) != "none":
+        opts.append("pre-partitioned:" + pre_relation(case))
     return ":".join(["xf", op, case["tgt"], clause] + opts)
 
 
@@ -454,13 +496,14 @@ def make_fills(ctx):
     return fills
 
 
-INVARIANTS = ["GroupsOK", "TableShape", "AggDecomposes", "VarFromSums", "XfSane"]
+INVARIANTS = ["GroupsOK", "TableShape", "AggDecomposes", "VarFromSums", "PreSane", "XfSane"]
 FILL_FIELDS = ("rows", "keys", "vcols", "cats")
+FILL_ID_FIELDS = ("rows", "vcols", "cats")            # (a two-stage case is grouped by fewer keys than its fill has)
 
 
 def fill_key(obj):
     import json
-    return json.dumps([obj[k] for k in FILL_FIELDS], sort_keys=True)
+    return json.dumps([obj[k] for k in FILL_ID_FIELDS], sort_keys=True)
 
 
 def enumerate_cases(ctx, fills, label="design+cases", maxparts=3, designparts=3, mincounts="{0, 2}", ddofs="{0, 1}"):
@@ -485,7 +528,13 @@ def variants_of(case, rng, k=1):
     out = []
     for _ in range(k):
         v = {"src": "pandas" if rng.random() < 0.15 else "parts"}
-        if case["fam"] == "agg":
+        if pre_of(case)["how"] != "none" and case["fam"] == "agg":         # pre-partitioned source: mostly split_out > 1
+            v["so"] = rng.choice(SO_VARIANTS + [2, 3, 2, 3])
+            v["se"] = rng.choice(SE_VARIANTS)
+            v["sm"] = rng.choice(SM_VARIANTS) if v["so"] not in ("default", 1) else "default"
+            if pre_of(case)["how"] == "agg":
+                v["so1"] = rng.choice([2, 3, 2, "default"])
+        elif case["fam"] == "agg":
             v["so"] = rng.choice(SO_VARIANTS)
             v["se"] = rng.choice(SE_VARIANTS)
             v["sm"] = rng.choice(SM_VARIANTS) if v["so"] not in ("default", 1) else "default"
@@ -521,7 +570,7 @@ def replay_cases(ctx, items, on_violation=None):
     return nviol
 
 
-def pair_items(ctx, cases, layouts, cap):
+def pair_items(ctx, cases, layouts, cap, pre_quota=900):
     counts = [len(layouts[len(c["c"]["rows"])]) for c in cases]
     total = sum(counts)
     sampled = total > cap
@@ -534,6 +583,13 @@ def pair_items(ctx, cases, layouts, cap):
         c = cases[ci]
         lay = layouts[len(c["c"]["rows"])][p - base]
         items.append((c["c"], c["e"], lay, variants_of(c["c"], ctx.rng)))
+    if sampled:          # stratum: the pre-partitioned sources (a small part of the universe) are replayed whatever the sample holds
+        pre_cases = [c for c in cases if pre_of(c["c"])["how"] != "none"]
+        if len(pre_cases) > pre_quota:
+            pre_cases = ctx.rng.sample(pre_cases, pre_quota)
+        for c in pre_cases:
+            lays = [lay for lay in layouts[len(c["c"]["rows"])] if len(lay) >= 2] or layouts[len(c["c"]["rows"])]
+            items.append((c["c"], c["e"], ctx.rng.choice(lays), variants_of(c["c"], ctx.rng)))
     return items, total, sampled
 
 
@@ -593,13 +649,19 @@ def random_case(rng):
                     if r[c] == 3:
                         r[c] = 1
         case.update(fam="xf", op=op, p=p, tgt=tgt, cols=vcols if tgt == "frame" else vcols[:1], sort=0)
+    case["pre"] = dict(NO_PRE)
+    order_free = (case["fam"] == "agg" and all(fn["f"] in ORDER_FREE for fn in case["funcs"])) or (case["fam"] == "xf" and case["op"] == "tsum")
+    if order_free and not cat and rng.random() < 0.6:
+        keys, v0 = list(f["keys"]), vcols[0]
+        ons = [keys, keys + [v0], [v0]] + ([[keys[0]], [keys[1]], [keys[0], v0]] if nk == 2 else [])
+        case["pre"] = {"how": "shuffle", "on": rng.choice(ons)}
     case["layout"] = random_layout(rng, n)
     case["variant"] = variants_of(case, rng)[0]
     return case
 
 
-AGG_FIELDS = ("fam", "form", "tgt", "funcs", "keys", "dropna", "dexp", "sort", "cats", "observed", "vcols", "rows")
-XF_FIELDS = ("fam", "op", "p", "tgt", "cols", "keys", "dropna", "dexp", "sort", "cats", "observed", "vcols", "rows")
+AGG_FIELDS = ("fam", "form", "tgt", "funcs", "keys", "dropna", "dexp", "sort", "cats", "observed", "vcols", "rows", "pre")
+XF_FIELDS = ("fam", "op", "p", "tgt", "cols", "keys", "dropna", "dexp", "sort", "cats", "observed", "vcols", "rows", "pre")
 
 
 def _record(item):
@@ -660,7 +722,7 @@ def run(ctx):
     fills = make_fills(ctx)
     cases, layouts, _ = enumerate_cases(ctx, fills, designparts=ctx.pick(2, 3), ddofs=ctx.pick("{0, 1}", "{0, 1, 2}"),
                                         mincounts=ctx.pick("{0, 2}", "{0, 1, 3}"))
-    items, total_pairs, sampled = pair_items(ctx, cases, layouts, ctx.pick(3000, 30000))
+    items, total_pairs, sampled = pair_items(ctx, cases, layouts, ctx.pick(2400, 30000), pre_quota=ctx.pick(900, 6000))
     replay_cases(ctx, items)
     nrec = ctx.pick(400, 4000)
     recs = [r for r in pmap(_record, [(i, random_case(ctx.rng)) for i in range(nrec)], chunk=16) if r is not None]
@@ -713,6 +775,7 @@ def selftest(ctx):
     from ..divisions import mutate, patched_attr as patched
     setup_scratch(ctx)
     import dask.dataframe.dask_expr._groupby as G
+    import dask.dataframe.dask_expr._reductions as R
     import dask.dataframe.groupby as legacy
     from dask.utils import M
     rng = ctx.rng
@@ -729,7 +792,8 @@ def selftest(ctx):
         pairs = [(c, lay) for c in cases if pred(c["c"]) and c["c"]["dexp"] and not c["e"]["err"]
                  for lay in layouts[len(c["c"]["rows"])] if len(lay) == 3 and 0 not in lay]
         pairs = rng.sample(pairs, min(limit, len(pairs)))
-        return [(c["c"], c["e"], lay, [{"src": "parts", "so": "default", "se": se, "sm": "default"} for se in ("default", 2)]) for c, lay in pairs]
+        return [(c["c"], c["e"], lay, [{"src": "parts", "so": (3 if pre_of(c["c"])["how"] != "none" else "default"), "se": se, "sm": "default"}
+                                       for se in ("default", 2)]) for c, lay in pairs]
 
     def new_violations(items):
         found = []
@@ -740,6 +804,10 @@ def selftest(ctx):
         return lambda c: c["fam"] == "agg" and c["form"] == "method" and c["funcs"][0]["f"] in names
 
     mutants = [
+        ("ApplyConcatApply.need_to_shuffle: 'already hash-partitioned on a SUBSET of the keys' tested as an overlap (>= became &): the "
+         "shuffle is skipped for sources partitioned on MORE columns and groups are split over the output partitions",
+         [R.ApplyConcatApply], "need_to_shuffle", mutate(vars(R.ApplyConcatApply)["need_to_shuffle"], "set(split_by) >= (set(cols)", "set(split_by) & (set(cols)"),
+         lambda c: c["fam"] == "agg" and pre_relation(c) in ("superset", "overlap") and c["funcs"][0]["f"] in ("sum", "count", "size", "max")),
         ("Count.groupby_aggregate: partial counts combined with count instead of sum (wrong operand)",
          [G.Count], "groupby_aggregate", M.count, method("count")),
         ("_var_agg: ddof dropped from the divisor (div = n)",
